@@ -26,7 +26,14 @@ pub enum Case {
     Fault { h: History, fault: crate::sink::Fault },
     FaultAll { h: History, level: u8 },
     Enum { what: String, lo: u64, hi: u64 },
-    Adts { protection_absent: bool, delta: i32, lo: u32, hi: u32 },
+    Adts {
+        protection_absent: bool,
+        delta: i32,
+        lo: u32,
+        hi: u32,
+        #[serde(default)]
+        mix: bool,
+    },
     Threads { hs: Vec<History>, threads: u32, seed: u64 },
     Cli(mon::c20::CliCase),
 }
@@ -40,7 +47,7 @@ impl Case {
             Case::Fault { h, fault } => format!("{:?} on {}", fault, h.brief()),
             Case::FaultAll { h, level } => format!("all fault points (level {}) of {}", level, h.brief()),
             Case::Enum { what, lo, hi } => format!("enumerate {} [{}..{})", what, lo, hi),
-            Case::Adts { protection_absent, delta, lo, hi } => format!("ADTS frame lengths [{}..{}) protection_absent={} buffer=len{:+}", lo, hi, protection_absent, delta),
+            Case::Adts { protection_absent, delta, lo, hi, mix } => format!("ADTS frame lengths [{}..{}) protection_absent={} alternating={} buffer=len{:+}", lo, hi, protection_absent, mix, delta),
             Case::Threads { hs, threads, seed } => format!("{} histories on {} threads (schedule seed {})", hs.len(), threads, seed),
             Case::Cli(c) => c.brief(),
         }
